@@ -145,6 +145,10 @@ def run(p):
     for _ in range(p.n(500, 15000)):
         zone, e, n, ht = grid_input(rng)
         vcv = gens.rand_psd(rng)
+        if rng.random() < 0.08:
+            # a covariance held in an integer array (variances in whole units): same numbers, other dtype
+            a_ = np.array([[rng.randrange(-3, 4) for _ in range(3)] for _ in range(3)], dtype=rng.choice([np.int64, np.int32]))
+            vcv = rng.choice([a_ @ a_.T, np.diag(np.array([rng.randrange(1, 10) for _ in range(3)], dtype=np.int64))])
         for lbl, (fwd, bwd, mk) in DIRS.items():
             inp = [lbl, zone, e, n, ht, vcv.tolist()]
             call = call_of(fwd, zone, e, n, ht, vcv)
